@@ -10,6 +10,10 @@ from .tlaval import to_tla, norm
 import txdbus.bus
 from txdbus import router, message, objects, interface
 
+class Cancelled(BaseException):
+    """what asyncio.CancelledError is since Python 3.8: an exception that is not an Exception"""
+
+
 ACTIONS = {'Add': ('r',), 'Del': ('id',), 'Route': ('i', 'raising'), 'RouteRemoving': ('i', 'x'), 'RouteAdding': ('i', 'r'), 'AddRejected': ('r',)}
 OBS = ['invoked']
 NONE = '-'
@@ -161,7 +165,8 @@ class HistDriver:
                 self.conn.match_rules.pop(self.ids[mid], None)
                 del self.ids[mid]
             if self.raising:
-                raise RuntimeError('callback %d raises' % mid)
+                # every other callback fails the way a cancelled coroutine does: not an Exception
+                raise (Cancelled if mid % 2 else RuntimeError)('callback %d raises' % mid)
         return cb
 
     def _reply(self):
@@ -235,6 +240,8 @@ class HistDriver:
             self.raising = raising == 'all'
             try:
                 self.conn.dataReceived(self.msgs[i - 1][1].rawMessage if False else self.raw[i - 1])
+            except Cancelled as ex:
+                raise RuntimeError('a callback exception escaped the routing: %r' % (ex,))
             finally:
                 self.raising = False
         else:
@@ -243,7 +250,7 @@ class HistDriver:
     def shared_cb(self, m):
         self.calls += 1
         if self.raising:
-            raise RuntimeError('shared callback raises')
+            raise (Cancelled if self.calls % 2 else RuntimeError)('shared callback raises')
 
     def project(self):
         if self.shared:
